@@ -273,6 +273,13 @@ void RelayServer::handle_register(const std::shared_ptr<ClientSession>& session,
         queue_text(session, "ERROR invalid-peer\n");
         return;
     }
+    if (!session->partner.expired()) {
+        // A connector has claimed this peer and the bridge is not up yet. Registering again would put
+        // the peer back into the registry while it keeps its partner, so a second connector could claim
+        // it, overwrite the pairing and receive bytes meant for the first one.
+        queue_text(session, "ERROR peer-claimed\n");
+        return;
+    }
 
     remove_registration(session);
     session->peer_id = *peer;
